@@ -204,7 +204,7 @@ def validate_file(path, workdir):
     viols = []
     for r in v:
         for prop, d in r['viol'].items():
-            viols.append({'run': r['run'], 'prop': prop, 'msg': d['msg'], 'n': d['n'], 'faulted': d['faulted'], 'resur': d['resur']})
+            viols.append({'run': r['run'], 'prop': prop, 'msg': d['msg'], 'n': d['n'], 'faulted': d['faulted'], 'resur': d['resur'], 'big': d.get('big', False)})
     return viols, int(m.group(2))
 
 
@@ -463,6 +463,7 @@ DERIVED = {
     # property: (base properties, flag that must be set on the violation)
     'C07': ({'C01', 'C03', 'C05', 'C08'}, 'faulted'),
     'C06': ({'C01', 'C02', 'C03', 'C05'}, 'resur'),
+    'C16': ({'C01', 'C03', 'C04', 'C05', 'C09'}, 'big'),
 }
 
 
